@@ -129,4 +129,7 @@ def check(ctx: Ctx) -> None:
     check_path(ctx, "C08.state", ["ahbicht.expressions.format_constraint_expression_evaluation.format_constraint_evaluation"],
                "the value of a format-constraint expression must depend on this evaluation's constraints only",
                extra_classes=["ahbicht.content_evaluation.fc_evaluators.FcEvaluator"])
+    from ..purity import check_models_and_transformers
+
+    check_models_and_transformers(ctx, "C08.state", "format constraint evaluation must not depend on earlier evaluations")
     ctx.assume("precedence of the re-parse is the documented one (C01); parse functions are summarised by the reference parser")
